@@ -205,7 +205,10 @@ def random_triaxys(rng, ntimes=None, nfreq=None, directional=None, ddir=None,
 def encode_triaxys(case, outdir):
     paths = []
     nf = len(case["freq"])
+    nf_all = nf
     for it, t in enumerate(case["times"]):
+        # later files may resolve fewer frequencies than the first one (same initial frequency and spacing)
+        nf = (case.get("nf_per_time") or [nf_all] * len(case["times"]))[it]
         local = _py(t) + _dt.timedelta(hours=case["toff"])
         zone = "UTC" if case["toff"] == 0 else "LOCAL"
         rows = case["E"][it]
